@@ -206,3 +206,4 @@ def run(chk):
     rule_untouched(chk, "C19.3")
     rule_call_sites(chk, "C19.4")
     X.rule_to_absolute_early_return(chk, "C19.5")
+    X.rule_regex_action_agreement(chk, "C19.6")
